@@ -62,7 +62,7 @@ META = {
 }
 
 PLAIN = ["a", "b", "c", "d", "x1", "0", "1"]
-SPECIAL = ["e/f", "g~h", "i|j", "k*", "~1m", "n/~0", "[p]", "q?"]
+SPECIAL = ["e/f", "g~h", "i|j", "k*", "~1m", "n/~0", "[p]", "q?", "a ", " b", "c\t", "x1 "]      # incl. keys that differ from a plain key only by edge white space
 
 
 # ----------------------------------------------------------------------------------------
@@ -746,7 +746,9 @@ def evaluate(ctx, cases, outs, v, tag=""):
                     cls = "pattern-steps-into-array/index-or-member-missing-raises"
                 elif "inside" in failed and "outside" not in failed and "idem" not in failed:
                     cls = "pattern-steps-into-array/elements-not-removed"
-                elif failed == ["kinds"]:
+                elif "kinds" in failed and set(failed) <= {"kinds", "outside"}:
+                    # the array of the fragment comes back as an object keyed "0","1": old lacks the member, or
+                    # holds null there (then the member itself, which lies outside the pointer, changes kind too)
                     cls = "pattern-steps-into-array/array-becomes-object"
                 else:
                     cls = "pattern-steps-into-array/other"
